@@ -453,7 +453,11 @@ pub fn run_dynamic(case: &Case, src: &str) -> ImpRun {
     }
     let rng_log = verif_hooks::take_rng_log();
     let epochs = epochs_of(&rng_log);
-    let lines = lines.borrow().clone();
+    let mut lines = lines.borrow().clone();
+    if lines.last().map(|l| l.starts_with("item ") && l.contains(" none")).unwrap_or(false) {
+        let draws = rng_log.iter().filter(|e| matches!(e, RngEvent::Draw(_))).count();
+        lines.push(format!("rng draws={draws}"));
+    }
     ImpRun { lines, script, epochs, rng_log, panicked }
 }
 
